@@ -18,6 +18,7 @@ const (
 	CoordHalf                      // multiples of 0.5 in [-8, 8]
 	CoordFloat                     // finite floats, full precision, mixed magnitudes
 	CoordBits                      // arbitrary bit patterns incl. NaN payloads, infinities, -0, subnormals
+	CoordModest                    // general-position floats in (-8, 8)
 )
 
 var specialBits = []uint64{
@@ -44,6 +45,8 @@ func coord(r *rand.Rand, m CoordMode) float64 {
 		}
 	case CoordHalf:
 		return float64(r.Intn(33)-16) / 2
+	case CoordModest:
+		return (r.Float64()*2 - 1) * 8
 	case CoordFloat:
 		switch r.Intn(6) {
 		case 0:
